@@ -173,10 +173,30 @@ def trace_parse(data: bytes):
 
 
 # ---------------------------------------------------------------------------------------------
-# mutation engine (all randomness from the caller's rng; mutants are (bytes, recipe) pairs)
+# mutation engine (all randomness from the caller's rng; mutants are (bytes, recipe) pairs; recipe["edits"] rebuilds
+# the bytes from the fixture, so that only the recipe has to travel to a worker process)
 # ---------------------------------------------------------------------------------------------
-def _put(b: bytes, off: int, raw: bytes) -> bytes:
-    return b[:off] + raw + b[off + len(raw):]
+def apply_edits(base: bytes, edits, get_bytes=None) -> bytes:
+    """edits: ["put", off, hex] | ["cut", n] | ["rep", s, e, hex | ["fx", name, ds, de] | ["self", ds, de]]"""
+    b = base
+    for ed in edits:
+        if ed[0] == "put":
+            raw = bytes.fromhex(ed[2])
+            b = b[:ed[1]] + raw + b[ed[1] + len(raw):]
+        elif ed[0] == "cut":
+            b = b[:ed[1]]
+        elif ed[0] == "rep":
+            src = ed[3]
+            if isinstance(src, str):
+                raw = bytes.fromhex(src)
+            elif src[0] == "self":
+                raw = base[src[1]:src[2]]
+            else:
+                raw = get_bytes(src[1])[src[2]:src[3]]
+            b = b[:ed[1]] + raw + b[ed[2]:]
+        else:
+            raise ValueError(ed)
+    return b
 
 
 def num_variants(f: Field):
@@ -190,28 +210,50 @@ def num_variants(f: Field):
     return [(nm, x) for nm, x in out if x != v]
 
 
+def _num_edit(f: Field, name: str, val: int):
+    return ["put", f.off, val.to_bytes(f.size, "big").hex()], {"op": "num", "off": f.off, "size": f.size,
+                                                                "label": f.label, "kind": f.kind, "how": name}
+
+
 def mutate_num(b: bytes, f: Field, name: str, val: int):
-    return _put(b, f.off, val.to_bytes(f.size, "big")), {"op": "num", "off": f.off, "size": f.size, "label": f.label,
-                                                         "kind": f.kind, "how": name}
+    ed, rec = _num_edit(f, name, val)
+    rec["edits"] = [ed]
+    return apply_edits(b, [ed]), rec
 
 
 def mutate_bitflip(b: bytes, off: int, bit: int, label="?"):
-    return _put(b, off, bytes([b[off] ^ (1 << bit)])), {"op": "bit", "off": off, "bit": bit, "label": label}
+    ed = ["put", off, bytes([b[off] ^ (1 << bit)]).hex()]
+    return apply_edits(b, [ed]), {"op": "bit", "off": off, "bit": bit, "label": label, "edits": [ed]}
 
 
-def gen_mutants(rng, sm: StructMap, donors: list, n: int, skeleton_bias=0.7):
-    """n structure-aware mutants of sm.data.  donors: [(bytes, StructMap)] for splices."""
+def gen_mutants(rng, sm: StructMap, donors: list, n: int, skeleton_bias=0.7, with_bytes=True):
+    """n structure-aware mutants of sm.data -> [(bytes | None, recipe)].
+    donors: [(name, bytes, StructMap)] (or (bytes, StructMap)) for splices."""
     b = sm.data
     out = []
     skel_nums = [f for f in sm.nums if f.label in SKELETON]
     other_nums = [f for f in sm.nums if f.label not in SKELETON]
     skel_any = [f for f in sm.fields if f.label in SKELETON and f.got > 0 and f.kind != "data"]
     other_any = [f for f in sm.fields if f.label not in SKELETON and f.got > 0]
+    dmap = {}
+    dlist = []
+    for dn in donors:
+        if len(dn) == 3:
+            dmap[dn[0]] = dn[1]
+            dlist.append(dn)
+        else:
+            nm = "donor%d" % len(dlist)
+            dmap[nm] = dn[0]
+            dlist.append((nm, dn[0], dn[1]))
 
     def pick(a, c):
         if a and (not c or rng.random() < skeleton_bias):
             return rng.choice(a)
         return rng.choice(c) if c else None
+
+    def emit(edits, rec):
+        rec["edits"] = edits
+        out.append((apply_edits(b, edits, dmap.get) if with_bytes else None, rec))
 
     ops = ["num"] * 40 + ["bit"] * 14 + ["byte"] * 10 + ["multi"] * 8 + ["trunc"] * 8 + ["splice"] * 8 + ["dup"] * 4 + \
           ["del"] * 4 + ["two"] * 6
@@ -222,14 +264,16 @@ def gen_mutants(rng, sm: StructMap, donors: list, n: int, skeleton_bias=0.7):
             if f is None:
                 continue
             nm, v = rng.choice(num_variants(f))
-            out.append(mutate_num(b, f, nm, v))
+            ed, rec = _num_edit(f, nm, v)
+            emit([ed], rec)
         elif op == "bit":
             f = pick(skel_any, other_any)
             if f is None:
                 continue
             off = f.off + rng.randrange(max(1, min(f.got, 26)))
             if off < len(b):
-                out.append(mutate_bitflip(b, off, rng.randrange(8), f.label))
+                bit = rng.randrange(8)
+                emit([["put", off, bytes([b[off] ^ (1 << bit)]).hex()]], {"op": "bit", "off": off, "bit": bit, "label": f.label})
         elif op == "byte":
             f = pick(skel_any, other_any)
             if f is None:
@@ -238,7 +282,7 @@ def gen_mutants(rng, sm: StructMap, donors: list, n: int, skeleton_bias=0.7):
             if off < len(b):
                 v = rng.choice([0, 1, 0x7F, 0x80, 0xFF, rng.randrange(256), 0x38, 0x40])
                 if v != b[off]:
-                    out.append((_put(b, off, bytes([v])), {"op": "byte", "off": off, "val": v, "label": f.label}))
+                    emit([["put", off, bytes([v]).hex()]], {"op": "byte", "off": off, "val": v, "label": f.label})
         elif op == "multi":
             f = pick(skel_any, other_any)
             if f is None:
@@ -246,39 +290,39 @@ def gen_mutants(rng, sm: StructMap, donors: list, n: int, skeleton_bias=0.7):
             k = min(f.got, rng.choice([2, 3, 4, 8]))
             raw = bytes(rng.choice([0, 0xFF, rng.randrange(256)]) for _ in range(k))
             if b[f.off:f.off + k] != raw:
-                out.append((_put(b, f.off, raw), {"op": "multi", "off": f.off, "raw": raw.hex(), "label": f.label}))
+                emit([["put", f.off, raw.hex()]], {"op": "multi", "off": f.off, "raw": raw.hex(), "label": f.label})
         elif op == "two":
             f1, f2 = pick(skel_nums, other_nums), pick(skel_nums, other_nums)
             if f1 is None or f2 is None or f1.off == f2.off:
                 continue
             n1, v1 = rng.choice(num_variants(f1))
             n2, v2 = rng.choice(num_variants(f2))
-            bb, r1 = mutate_num(b, f1, n1, v1)
-            bb, r2 = mutate_num(bb, f2, n2, v2)
-            out.append((bb, {"op": "two", "a": r1, "b": r2, "label": f1.label}))
+            e1, r1 = _num_edit(f1, n1, v1)
+            e2, r2 = _num_edit(f2, n2, v2)
+            emit([e1, e2], {"op": "two", "a": r1, "b": r2, "label": f1.label})
         elif op == "trunc":
             cut = rng.choice(sm.boundaries)
             if rng.random() < 0.3:
                 cut = max(0, min(len(b), cut + rng.choice([-2, -1, 1, 2])))
             if cut != len(b):
-                out.append((b[:cut], {"op": "trunc", "at": cut, "label": "boundary"}))
-        elif op == "splice" and donors and sm.blocks:
+                emit([["cut", cut]], {"op": "trunc", "at": cut, "label": "boundary"})
+        elif op == "splice" and dlist and sm.blocks:
             s, e, lab = rng.choice(sm.blocks)
-            db, dm = rng.choice(donors)
+            dname, db, dm = rng.choice(dlist)
             cands = [x for x in dm.blocks if x[2] == lab and x[1] - x[0] <= 200000] or \
                     [x for x in dm.blocks if x[1] - x[0] <= 200000]
             if not cands:
                 continue
             ds, de, dl = rng.choice(cands)
-            out.append((b[:s] + db[ds:de] + b[e:], {"op": "splice", "at": s, "end": e, "label": lab, "donor_label": dl,
-                                                    "donor_len": de - ds}))
+            emit([["rep", s, e, ["fx", dname, ds, de]]], {"op": "splice", "at": s, "end": e, "label": lab,
+                                                          "donor": dname, "donor_label": dl, "donor_len": de - ds})
         elif op == "dup" and sm.blocks:
             s, e, lab = rng.choice(sm.blocks)
             if e - s <= 200000:
-                out.append((b[:e] + b[s:e] + b[e:], {"op": "dup", "at": s, "end": e, "label": lab}))
+                emit([["rep", e, e, ["self", s, e]]], {"op": "dup", "at": s, "end": e, "label": lab})
         elif op == "del" and sm.blocks:
             s, e, lab = rng.choice(sm.blocks)
-            out.append((b[:s] + b[e:], {"op": "del", "at": s, "end": e, "label": lab}))
+            emit([["rep", s, e, ""]], {"op": "del", "at": s, "end": e, "label": lab})
     return out
 
 
@@ -427,6 +471,47 @@ def _write(doc):
     return f.getvalue(), n
 
 
+def _layer_infos(doc):
+    from psd_tools.psd.layer_and_mask import LayerInfo
+    lam = doc.layer_and_mask_information
+    out = []
+    if lam.layer_info is not None:
+        out.append(lam.layer_info)
+    tb = lam.tagged_blocks
+    if tb is not None:
+        for k in list(tb.keys()):
+            d = tb[k].data
+            if isinstance(d, LayerInfo):
+                out.append(d)
+    return out
+
+
+def _channel_lengths(doc):
+    out = []
+    for li in _layer_infos(doc):
+        for r in (li.layer_records or []):
+            out.append([c.length for c in r.channel_info])
+    return out
+
+
+def mechanisms(doc):
+    """accepted shapes the model proves unstable (Props/C02.lean `MaskData.Stable`): a layer mask without real
+    fields whose body is 18 + 17 bytes (both feathers, no densities) - the writer pads it to 36 bytes, which are read
+    as real-mask fields"""
+    out = []
+    for li in _layer_infos(doc):
+        for r in (li.layer_records or []):
+            m = r.mask_data
+            if m is None or m.real_flags is not None or not m.flags.parameters_applied or m.parameters is None:
+                continue
+            q = m.parameters
+            n = 1 + (q.user_mask_density is not None) + 8 * (q.user_mask_feather is not None) + \
+                (q.vector_mask_density is not None) + 8 * (q.vector_mask_feather is not None)
+            if 18 + n > 32:
+                out.append("mask-data/no-real-fields-body-%d-bytes" % (18 + n))
+    return sorted(set(out))
+
+
 def resave_oracle(data: bytes):
     """The property itself on the real code.
     -> ('rejected', class) | ('ok', info) | ('fail', stage, detail, info)"""
@@ -439,6 +524,10 @@ def resave_oracle(data: bytes):
         except Exception as e:  # noqa
             return ("rejected", core.err_class(e))
         info = {"len": len(data)}
+        mech = mechanisms(d0)
+        if mech:
+            info["mechanisms"] = mech
+        before = _channel_lengths(d0)
         try:
             w1, n1 = _write(d0)
         except Exception as e:  # noqa
@@ -446,6 +535,7 @@ def resave_oracle(data: bytes):
         if n1 != len(w1):
             return ("fail", "written-count", f"write returned {n1}, emitted {len(w1)}", info)
         info["resaved_len"] = len(w1)
+        info["lengths_refreshed"] = (_channel_lengths(d0) != before)
         info["identical_to_input"] = (w1 == data)
         try:
             d1, tell1 = _read(w1)
@@ -468,6 +558,9 @@ def resave_oracle(data: bytes):
 def classify(res):
     """failing oracle result -> signature `C02/<section>/<mechanism>`"""
     stage, detail = res[1], res[2]
+    info = res[3] if len(res) > 3 else {}
+    if info.get("mechanisms"):
+        return f"C02/{info['mechanisms'][0]}/{stage}"
     if stage in ("reread-differs", "second-save-differs"):
         diffs = detail if stage == "reread-differs" else detail.get("struct") or []
         if diffs:
